@@ -393,6 +393,7 @@ def run_trace_engine(name, gen_fn, tier, seed, shards=6, cap=None, keep_traces=F
         log("[%s] %d scenarios; executing against /repo (hooks on)..." % (name, len(scns)))
         t1 = time.time()
         shard_res = run_harness_shards(scn_path, os.path.join(wdir, "t"), shards, cap,
+                                       timeout=1500 if tier == "quick" else 6 * 3600,
                                        event_budget=600000 if tier == "quick" else 8000000)
         t_exec = time.time() - t1
         stats = {"scenarios": 0, "runs": 0, "events": 0, "truncated": 0}
